@@ -1,16 +1,16 @@
 #!/usr/bin/env python3
 """Regenerates the seed tables of DESIGN.md §9 (between the markers) from /verif/seeded/*/meta.json."""
 import json, glob, os, re
-rows1, rows2 = [], []
+rows1, rows2, rows3 = [], [], []
 for d in sorted(glob.glob('/verif/seeded/*')):
     m = json.load(open(d + '/meta.json'))
     n = os.path.basename(d)
     det = m.get('detection') == 'DETECTED'
     by = ('`' + (m.get('detected_by') or '') + '`') if det else '**missed**'
-    if '-r2m' in n:
+    if '-r2m' in n or '-r3m' in n:
         fs = m.get('first_sweep', '')
         first = 'detected' if fs.startswith('DETECTED') else 'missed'
-        rows2.append(f"| {n} | {m.get('what','')} | {first} | {by} | {m.get('history','')} |")
+        (rows2 if '-r2m' in n else rows3).append(f"| {n} | {m.get('what','')} | {first} | {by} | {m.get('history','')} |")
     else:
         rows1.append(f"| {n} | {m.get('what','')} | {by} | {m.get('history','')} |")
 def count(rows, col):
@@ -19,6 +19,9 @@ t1 = "| seed | what the change does | caught by | history |\n|---|---|---|---|\n
 t2 = "| seed | what the change does | first sweep | caught by (now) | history |\n|---|---|---|---|---|\n" + "\n".join(rows2)
 n1d = count(rows1, 3); n2d = count(rows2, 4)
 n2first = sum(1 for r in rows2 if r.split('|')[3].strip() == 'detected')
+t3 = "| seed | what the change does | first sweep | caught by (now) | history |\n|---|---|---|---|---|\n" + "\n".join(rows3)
+n3d = count(rows3, 4)
+n3first = sum(1 for r in rows3 if r.split('|')[3].strip() == 'detected')
 s = open('/verif/DESIGN.md').read()
 a = s.index('<!-- SEEDS:BEGIN -->'); b = s.index('<!-- SEEDS:END -->')
 body = f"""<!-- SEEDS:BEGIN -->
@@ -34,7 +37,15 @@ stood when the seed arrived, before anything was changed because of it.
 
 {t2}
 
+### Round 3 ({len(rows3)} confirmed seeds; {n3first} detected by the first sweep, {n3d} detected now, {len(rows3)-n3d} missed)
+
+Round 3 repeats the measurement after the generic rules of round 2 (err-discipline, loop-accumulator, enum-switch,
+boundary tables, seek-orientation, the path-sensitive cache-pairing, rename-proof anchors) were in place; the agents
+were told what rounds 1 and 2 had produced.
+
+{t3}
+
 """
 s = s[:a] + body + s[b:]
 open('/verif/DESIGN.md', 'w').write(s)
-print(len(rows1), n1d, len(rows2), n2first, n2d)
+print(len(rows1), n1d, len(rows2), n2first, n2d, len(rows3), n3first, n3d)
